@@ -293,6 +293,16 @@ func H_C14_multi() {
 	if en1 == nil && en2 == nil {
 		vSameResults(n1, n2, "second-execute-same-result-node-query")
 	}
+	// the same search object once more after the index has grown past what it held at the first Execute
+	if vChoose("grow", 2) == 1 {
+		if vAddBoth(u.idx, u.m, 9, []float32{0.75}) {
+			r4, e4 := s.Execute()
+			vAssert(e4 == nil, "search-ok")
+			vCheckExact(r4, u.m.eligible(q1, 0, nil), 5)
+		}
+		vCover("ran")
+		return
+	}
 	r3, e3 := u.idx.NewSearch().WithQuery(q1, q2).WithK(5).WithScoreAggregation(MaxAggregation).Execute()
 	vAssert(e3 == nil && len(r3) == 2, "batch-ok")
 	for i := range u.m.entries {
